@@ -132,3 +132,66 @@ func zzC19TLS12TicketStoredIsTicketOffered() {
 	verifAssert(len(zzCacheKeys) == 1 && zzCacheKeys[0] == zzCachePuts[0], "lookup-key-is-the-store-key")
 	verifAssert(zzBytesEq(hello2.sessionTicket, ticket), "offered-ticket-is-the-stored-ticket")
 }
+
+//verif:harness C19 psk_with_grease_ech_spec_builds_with_cached_session unwind=4000 instrs=900000000 paths=20000 wall=900
+//verif:stub (*math/rand.Rand).Shuffle zzStubShuffleIdentity
+//verif:stub (crypto.Hash).New zzStubHashNew
+//verif:stub (*utls.cipherSuiteTLS13).finishedHash zzStubFinishedHash
+//verif:stub (*crypto/x509.Certificate).VerifyHostname zzStubVerifyHostname
+//verif:stub (time.Time).Sub zzStubTimeSub
+//verif:stub (*github.com/refraction-networking/utls/internal/tls13.EarlySecret).ResumptionBinderKey zzStubResumptionBinderKey
+//verif:expect offered
+//verif:assume transcript hash, Finished MAC and the early secret are opaque; x509 host-name matching succeeds; the cached TLS 1.3 session is valid
+//verif:doc Custom specs that combine a pre_shared_key extension (UtlsPreSharedKeyExtension, last) with extensions that marshal or measure the hello while the configuration is applied (a GREASE ECH extension; BoringSSL padding): every ECH-capable parrot's spec (and every padding parrot's) with a UtlsPreSharedKeyExtension appended, built on a connection (Config.OmitEmptyPsk set) whose ClientSessionCache holds a valid TLS 1.3 session: BuildHandshakeState succeeds, the hello passes the strict grammar with pre_shared_key last carrying the cached ticket as identity, and the length fields are consistent.
+func zzC19PskWithGreaseECHSpecBuildsWithCachedSession() {
+	p := zzChooseParrot()
+	spec, _ := zzRefSpec(p.id)
+	hasPSK, interesting, has13 := false, false, false
+	for _, e := range spec.Extensions {
+		switch e.(type) {
+		case PreSharedKeyExtension:
+			hasPSK = true
+		case *GREASEEncryptedClientHelloExtension, *UtlsPaddingExtension:
+			interesting = true
+		case *KeyShareExtension:
+			has13 = true
+		}
+	}
+	if hasPSK || !interesting || !has13 {
+		verifReach("offered")
+		return
+	}
+	spec.Extensions = append(spec.Extensions, &UtlsPreSharedKeyExtension{})
+	zzCacheKeys, zzCachePuts, zzHostnameChecks = nil, nil, nil
+	zzHostnameOK = true
+	cfg := zzConfig("example.com")
+	cfg.ClientSessionCache = zzScriptedCache{}
+	cfg.OmitEmptyPsk = true // the documented setting for specs with a pre_shared_key extension
+	now := zzFixedTime()
+	cert := &x509.Certificate{NotAfter: now.Add(time.Hour)}
+	ticket := []byte{0xca, 0xfe, 0xf0, 0x0d}
+	zzCachedSession = &ClientSessionState{session: &SessionState{version: VersionTLS13, cipherSuite: TLS_AES_128_GCM_SHA256, createdAt: uint64(now.Unix()), useBy: uint64(now.Add(time.Hour).Unix()), ageAdd: 7,
+		secret: []byte{1, 2}, ticket: ticket, peerCertificates: []*x509.Certificate{cert}, verifiedChains: [][]*x509.Certificate{{cert}}}}
+	uc := UClient(&zzRecConn{}, cfg, HelloCustom)
+	if err := uc.ApplyPreset(&spec); err != nil {
+		verifFail("apply-preset", p.name)
+		return
+	}
+	err := uc.BuildHandshakeState()
+	if err != nil {
+		verifFail("hello-with-cached-session-builds", p.name+": "+err.Error())
+	}
+	if err != nil {
+		return
+	}
+	raw := uc.HandshakeState.Hello.Raw
+	h, ok := zzCheckHelloSyntax(raw, p.name)
+	if !ok {
+		return
+	}
+	verifAssertClass(len(h.exts) > 0 && h.exts[len(h.exts)-1].typ == 41, "pre-shared-key-is-last", p.name)
+	b, _ := h.ext(41)
+	verifAssertClass(len(b) >= 2+2+len(ticket) && zzBytesEq(b[4:4+len(ticket)], ticket), "identity-is-the-cached-ticket", p.name)
+	verifAssertClass(len(raw) == 4+int(raw[1])<<16+int(raw[2])<<8+int(raw[3]), "length-field-consistent", p.name)
+	verifReach("offered")
+}
